@@ -96,7 +96,7 @@ def rich_pair(draw):
     if special == "shift_output_counts" and code:
         for c in cells:
             for o in c.get("outputs", []):
-                if o.get("output_type") == "execute_result" and o["data"] == {"text/plain": "42"}:
+                if o.get("output_type") == "execute_result" and o["data"] == {"text/plain": "42"} and isinstance(o.get("execution_count"), int):
                     o["execution_count"] += 1
         if draw(st.booleans()):
             return a, b
